@@ -12,7 +12,7 @@ From Coq Require Import List ZArith NArith Bool String.
 From Flocq Require Import IEEE754.BinarySingleNaN.
 From Verif Require Import common.Sexp common.Int64 gen.GenFuncTable
   c03.JV c03.FloatText c03.Core c03.Ops c03.Natives c03.Dispatch c03.Spec c03.Wf c03.TableProofs
-  c03.NoPanic3 c03.DispatchTotal c03.Denote c03.CompareDoc c03.OpsDoc c03.NativesDoc c03.RepIndep c03.Run.
+  c03.NoPanic3 c03.DispatchTotal c03.Denote c03.CompareDoc c03.OpsDoc c03.NativesDoc c03.NativesDoc2 c03.RepIndep c03.Run.
 Import ListNotations.
 Open Scope Z_scope.
 
@@ -94,6 +94,17 @@ Proof.
 Qed.
 Print Assumptions C03_natives_meet_doc.
 
+(* second batch (these use Compare / + and therefore the ParseFloat hypothesis): min = first minimal
+   element, max = last maximal element, add = the fold of + from null over the elements (values of an
+   object in key order) *)
+Theorem C03_natives_meet_doc2 : forall pf, (forall z, big_to_float pf z = Z2F z) ->
+  forall v, wf v = true ->
+     agrees pf (f_minmax pf true v) (s_min (denote pf v))
+  /\ agrees pf (f_minmax pf false v) (s_max (denote pf v))
+  /\ agrees pf (f_add pf v) (s_add_all (denote pf v)).
+Proof. exact (fun pf H v W => conj (f_min_doc pf H v W) (conj (f_max_doc pf H v W) (f_add_doc pf H v W))). Qed.
+Print Assumptions C03_natives_meet_doc2.
+
 (* 5. rep_independent.  The conversions every numeric argument goes through (toFloat, toInt,
    toIntCeil) and Compare depend on the denotation only -- for integers of ANY size in int / *big.Int /
    json.Number, and for a float64 against ANY fraction/exponent literal that parses to it (in particular
@@ -137,6 +148,12 @@ Proof.
   exact (fun pf H => conj (f_math1_rep pf H) (conj (f_math2_rep pf H) (conj (f_math3_rep pf H) (conj (f_isnan_rep pf H) (f_has_rep pf))))).
 Qed.
 Print Assumptions C03_math_rep.
+(* unary natives proved to meet their documented function (above) are representation independent *)
+Theorem C03_natives_rep : forall pf, (forall z, big_to_float pf z = Z2F z) ->
+  rep1 pf f_utf8bytelength /\ rep1 pf f_keys /\ rep1 pf f_reverse /\ rep1 pf f_type /\ rep1 pf f_explode
+  /\ rep1 pf (f_minmax pf true) /\ rep1 pf (f_minmax pf false) /\ rep1 pf (f_add pf).
+Proof. exact natives_rep1. Qed.
+Print Assumptions C03_natives_rep.
 (* text-producing builtins: equal text for values with the same canonical number texts *)
 Theorem C03_tojson_rep_canonical : forall ff v v', canon ff v = canon ff v' -> f_tojson ff v = f_tojson ff v'.
 Proof. exact f_tojson_rep. Qed.
